@@ -13,6 +13,8 @@
 //	closefd    closes the pre-connected socket without registering, lingers until killed
 //	cfgfail    registers, fails Configure
 //	cfghang    registers, never answers Configure (request timeout), lingers until killed
+//	badmask<k> speaks ttrpc itself (no stub): registers and answers Configure successfully,
+//	           asking for events this runtime does not know (variant k of badMasks); lingers
 //	syncfail   registers, is configured, fails Synchronize
 //	synchang   registers, is configured, never answers Synchronize (request timeout)
 //	syncclose  registers, is configured, closes its connection instead of answering Synchronize
@@ -37,6 +39,7 @@ import (
 	"encoding/json"
 	"errors"
 	"fmt"
+	"hash/fnv"
 	"io"
 	"os"
 	"path/filepath"
@@ -48,7 +51,10 @@ import (
 	"time"
 
 	"github.com/containerd/nri/pkg/api"
+	nrinet "github.com/containerd/nri/pkg/net"
+	"github.com/containerd/nri/pkg/net/multiplex"
 	"github.com/containerd/nri/pkg/stub"
+	"github.com/containerd/ttrpc"
 	"github.com/sirupsen/logrus"
 )
 
@@ -281,6 +287,121 @@ func (p *plugin) lifecycle(ev, tag string) {
 	}
 }
 
+// StateDigest summarises the state a Synchronize handler received: counts, and an
+// order-insensitive sum of hashes over each object's id and annotations (the bulk of a big
+// state). The harness computes the same over what its SyncFn handed to nri.
+func StateDigest(pods []*api.PodSandbox, ctrs []*api.Container) string {
+	var sum uint64
+	one := func(kind, id string, ann map[string]string) {
+		keys := make([]string, 0, len(ann))
+		for k := range ann {
+			keys = append(keys, k)
+		}
+		sort.Strings(keys)
+		h := fnv.New64a()
+		h.Write([]byte(kind + "\x00" + id))
+		for _, k := range keys {
+			h.Write([]byte("\x00" + k + "\x00" + ann[k]))
+		}
+		sum += h.Sum64()
+	}
+	for _, p := range pods {
+		one("pod", p.GetId(), p.GetAnnotations())
+	}
+	for _, c := range ctrs {
+		one("ctr", c.GetId(), c.GetAnnotations())
+	}
+	return fmt.Sprintf("pods=%d ctrs=%d sum=%016x", len(pods), len(ctrs), sum)
+}
+
+// badMasks are Configure replies with at least one bit outside the 13 valid events.
+var badMasks = []int32{1 << 13, 0x1fff | 1<<13, 1 << 30, -1 << 31, 0x0005 | 1<<20, -1, 1<<13 | 1<<14 | 1<<29}
+
+// rawService is a plugin service without the stub: it can answer what the stub refuses to.
+type rawService struct{ mask int32 }
+
+func (r *rawService) Configure(_ context.Context, req *api.ConfigureRequest) (*api.ConfigureResponse, error) {
+	logMu.Lock()
+	cfg := req.GetConfig()
+	appendLine(Line{Ev: "Configure", Cfg: &cfg, RT: req.GetRuntimeName() + "/" + req.GetRuntimeVersion()})
+	logMu.Unlock()
+	return &api.ConfigureResponse{Events: r.mask}, nil
+}
+func (r *rawService) note(ev, tag string) {
+	logMu.Lock()
+	appendLine(Line{Ev: ev, Tag: tag})
+	logMu.Unlock()
+}
+func (r *rawService) Synchronize(_ context.Context, req *api.SynchronizeRequest) (*api.SynchronizeResponse, error) {
+	r.note("Synchronize", StateDigest(req.GetPods(), req.GetContainers()))
+	return &api.SynchronizeResponse{More: req.GetMore()}, nil
+}
+func (r *rawService) Shutdown(context.Context, *api.Empty) (*api.Empty, error) {
+	return &api.Empty{}, nil
+}
+func (r *rawService) CreateContainer(_ context.Context, req *api.CreateContainerRequest) (*api.CreateContainerResponse, error) {
+	r.note("CreateContainer", req.GetContainer().GetId())
+	return &api.CreateContainerResponse{}, nil
+}
+func (r *rawService) UpdateContainer(_ context.Context, req *api.UpdateContainerRequest) (*api.UpdateContainerResponse, error) {
+	r.note("UpdateContainer", req.GetContainer().GetId())
+	return &api.UpdateContainerResponse{}, nil
+}
+func (r *rawService) StopContainer(_ context.Context, req *api.StopContainerRequest) (*api.StopContainerResponse, error) {
+	r.note("StopContainer", req.GetContainer().GetId())
+	return &api.StopContainerResponse{}, nil
+}
+func (r *rawService) UpdatePodSandbox(_ context.Context, req *api.UpdatePodSandboxRequest) (*api.UpdatePodSandboxResponse, error) {
+	r.note("UpdatePodSandbox", req.GetPod().GetId())
+	return &api.UpdatePodSandboxResponse{}, nil
+}
+func (r *rawService) StateChange(_ context.Context, evt *api.StateChangeEvent) (*api.Empty, error) {
+	tag := evt.GetContainer().GetId()
+	if evt.GetContainer() == nil {
+		tag = evt.GetPod().GetId()
+	}
+	r.note(evt.GetEvent().String(), tag)
+	return &api.Empty{}, nil
+}
+
+// runRaw connects the way the stub does (multiplexed ttrpc over the pre-connected socket,
+// identity from the environment) and serves rawService. It never returns.
+func runRaw(mask int32) {
+	fd, err := strconv.Atoi(os.Getenv(api.PluginSocketEnvVar))
+	if err != nil {
+		os.Exit(95)
+	}
+	conn, err := nrinet.NewFdConn(fd)
+	if err != nil {
+		os.Exit(96)
+	}
+	mux := multiplex.Multiplex(conn)
+	l, err := mux.Listen(multiplex.PluginServiceConn)
+	if err != nil {
+		os.Exit(97)
+	}
+	srv, err := ttrpc.NewServer()
+	if err != nil {
+		os.Exit(98)
+	}
+	api.RegisterPluginService(srv, &rawService{mask: mask})
+	cconn, err := mux.Open(multiplex.RuntimeServiceConn)
+	if err != nil {
+		os.Exit(99)
+	}
+	rt := api.NewRuntimeClient(ttrpc.NewClient(cconn))
+	go srv.Serve(context.Background(), l)
+	if _, err := rt.RegisterPlugin(context.Background(), &api.RegisterPluginRequest{
+		PluginName: os.Getenv(api.PluginNameEnvVar),
+		PluginIdx:  os.Getenv(api.PluginIdxEnvVar),
+	}); err != nil {
+		logMu.Lock()
+		appendLine(Line{Ev: "RunError", Tag: err.Error()})
+		logMu.Unlock()
+	}
+	linger()
+}
+
 func podTag(pod *api.PodSandbox) string { return pod.GetId() }
 func ctrTag(c *api.Container) string    { return c.GetId() }
 
@@ -299,7 +420,7 @@ func (p *plugin) Configure(_ context.Context, config, runtime, version string) (
 
 func (p *plugin) Synchronize(_ context.Context, pods []*api.PodSandbox, ctrs []*api.Container) ([]*api.ContainerUpdate, error) {
 	logMu.Lock()
-	appendLine(Line{Ev: "Synchronize", Tag: fmt.Sprintf("%d/%d", len(pods), len(ctrs))})
+	appendLine(Line{Ev: "Synchronize", Tag: StateDigest(pods, ctrs)})
 	logMu.Unlock()
 	switch p.word {
 	case "syncfail":
@@ -444,6 +565,10 @@ func main() {
 
 	logrus.SetOutput(io.Discard)
 	logrus.SetLevel(logrus.PanicLevel)
+
+	if word == "badmask" {
+		runRaw(badMasks[k%len(badMasks)])
+	}
 
 	p := &plugin{word: word, k: k}
 	// identity and connection come from the environment nri prepared (stub defaults)
